@@ -4,6 +4,7 @@
    state's [obs] log, into which command results are interleaved in time order. *)
 From Coq Require Import List NArith Arith Bool FMapPositive.
 From Quill Require Import Queue.BQDefs BT.BTModel Backend.BEDefs.
+From Quill Require Queue.UQDefs.
 Import ListNotations.
 Local Open Scope N_scope.
 
@@ -295,9 +296,9 @@ Definition st0 (clock0 : N) (nl ns : nat) (lgf : nat -> lgr) (skf : nat -> snk) 
 Definition be_run_enc (l : list N) : list N :=
   match l with
   | dr :: capk :: batch :: ob :: od :: tinit :: soft :: hard :: grace :: bits :: rf2 :: ca :: rfirst :: btr :: btg :: btc :: fiv :: clock0 :: nl :: r =>
-      (* dr = 2: UnboundedBlocking frontend queue (initial capacity 2^capk in the driver, grows on demand, never at
-         its maximum in these runs): to the backend a FIFO that never refuses, modelled as a bounded blocking
-         queue too large to fill; node switches are verified at the queue level (C02) *)
+      (* dr = 2: UnboundedBlocking frontend queue (initial capacity 2^capk, grows on demand, never at its maximum in
+         these runs): byte accounting by a bounded queue too large to fill (a FIFO that never refuses), node
+         structure by the M-UQ state carried in the thread record (it decides the per-call read limit) *)
       let K := {| c_cap := if dr =? 2 then 2 ^ 40 else 2 ^ capk; c_batch := batch;
                   c_pub := {| on_batch := negb (ob =? 0); on_drain := negb (od =? 0) |};
                   c_dropping := (dr =? 1); c_tinit := tinit; c_soft := soft; c_hard := hard;
@@ -310,7 +311,10 @@ Definition be_run_enc (l : list N) : list N :=
       | ns :: r2 =>
           let (skf, r3) := dec_sinks (N.to_nat ns) 0 r2 (fun _ => mk_snk 0 []) in
           let cs := dec_cmds (length r3) r3 in
-          obs (exec_all_fast K (cmds_threads cs) (st0 clock0 (N.to_nat nl) (N.to_nat ns) lgf skf) cs)
+          let s0 := st0 clock0 (N.to_nat nl) (N.to_nat ns) lgf skf in
+          (* unbounded frontends: every thread context starts with one node of the initial capacity *)
+          let s0 := if dr =? 2 then set_th s0 (fun _ => set_thr_uqs thr0 (Some (Queue.UQDefs.uq_init (2 ^ capk)))) else s0 in
+          obs (exec_all_fast K (cmds_threads cs) s0 cs)
       | [] => []
       end
   | _ => []
